@@ -8,7 +8,8 @@ implemented check, record which fire, and restore the tree (git checkout) straig
 import json, os, subprocess, sys, time
 
 ROOT = os.path.dirname(os.path.dirname(os.path.abspath(__file__)))
-REPO = "/repo"
+# when this script runs from a scratch copy made by tools/mk_scratch.sh, the repo copy sits next to it
+REPO = os.path.join(os.path.dirname(ROOT), "repo") if os.path.isdir(os.path.join(os.path.dirname(ROOT), "repo", "contracts")) else "/repo"
 muts = json.load(open(os.path.join(ROOT, "mutants", "mutants.json")))
 manifest = json.load(open(os.path.join(ROOT, "MANIFEST.json")))
 implemented = [c["property_id"] for c in manifest["checks"]]
@@ -79,7 +80,9 @@ try:
         finally:
             clean()
         caught = all(isinstance(v, dict) and v["rc"] == 1 for v in row["fired"].values() if v != "not-implemented")
-        print("MUTANT %-40s %s %s %s" % (m["id"], "CAUGHT" if caught else "MISSED", json.dumps(row["fired"]), json.dumps(row["others_fired"]) if row["others_fired"] else ""))
+        row["caught"] = caught
+        row["equivalent"] = m.get("equivalent")
+        print("MUTANT %-40s %s %s %s" % (m["id"], "EQUIVALENT" if m.get("equivalent") else ("CAUGHT" if caught else "MISSED"), json.dumps(row["fired"]), json.dumps(row["others_fired"]) if row["others_fired"] else ""))
         sys.stdout.flush()
         results.append(row)
 finally:
